@@ -282,7 +282,7 @@ func (in *Interp) runPath(fn *ssa.Function, prefix []int) (res PathResult) {
 					return
 				}
 				res.Outcome = "internal"
-				res.Msg = fmt.Sprint(r)
+				res.Msg = fmt.Sprint(r) + " at " + in.curSite()
 				if os.Getenv("SYMGO_DEBUG") != "" {
 					panic(r)
 				}
